@@ -550,8 +550,15 @@ def check_nodes(ck, binary, nodes, stats):
         if fatal is not None:
             redo.append(nd)       # a panic / abrupt end hides the other blocks: isolate per operation
             continue
+        if any(n == 0 for n, w, d in f):
+            # the state itself is already wrong: the culprit is the last operation of the prefix (an edge of the
+            # parent state); what follows from this state is a consequence, not another failure
+            for n, w, d in f:
+                if n == 0:
+                    failing.append((ops_of(nd["h"]), w, d, nd["h"][-2]["d"] if len(nd["h"]) > 1 else None))
+            continue
         for n, w, d in f:
-            ops = ops_of(nd["h"]) + ([nd["steps"][n - 1]["op"]] if n > 0 else [])
+            ops = ops_of(nd["h"]) + [nd["steps"][n - 1]["op"]]
             failing.append((ops, w, d, nd["h"][-1]["d"]))
     if redo:
         lin = []
